@@ -342,3 +342,231 @@ Proof.
   destruct (Nat.ltb_spec (length s) (Z.to_nat len)); [lia|]. rewrite K. cbn [negb].
   f_equal. unfold frames. apply frame_fuel; rewrite skipn_length; lia.
 Qed.
+
+(* ---------------------------------------------------------------- timeouts of the read step *)
+
+(* with the pending read kept, WHEN the 100 ms waits expire is irrelevant *)
+Theorem timeouts_irrelevant : forall max evs s,
+  run_timed true max evs s = run_timed true max (filter is_recv evs) s.
+Proof.
+  intros max evs. induction evs as [|e evs IH]; intros s; [reflexivity|].
+  destruct e as [k|]; cbn [filter is_recv run_timed].
+  - destruct (need_of max (t_acc s)) as [[|n]|]; try reflexivity.
+    destruct (t_rest s) as [|x xs]; [reflexivity|].
+    set (acc' := t_acc s ++ firstn _ _). set (rest' := skipn _ _).
+    destruct (need_of max acc') as [[|m]|]; try reflexivity; [|apply IH].
+    destruct (is_notify (finish_msg max acc')); [reflexivity|]. now rewrite IH.
+  - apply IH.
+Qed.
+
+Corollary timed_reader_timeout_independent : forall max stream evs1 evs2,
+  filter is_recv evs1 = filter is_recv evs2 ->
+  timed_reader true max stream evs1 = timed_reader true max stream evs2.
+Proof.
+  intros max stream evs1 evs2 H. unfold timed_reader.
+  rewrite (timeouts_irrelevant max evs1), (timeouts_irrelevant max evs2), H. reflexivity.
+Qed.
+
+(* the earlier behaviour (read cancelled by the timeout) loses bytes: a KEEPALIVE whose 19 bytes arrive
+   as 10 + 9 with a timeout in between is never delivered, and what follows is read from the middle *)
+Definition ka : bytes := [255;255;255;255;255;255;255;255;255;255;255;255;255;255;255;255;0;19;4].
+
+Lemma cancelled_read_loses_bytes :
+  timed_reader true 4096 (ka ++ ka) [Recv 9; Timeout; Recv 100; Recv 100] = [OMsg 4 []; OMsg 4 []] /\
+  timed_reader false 4096 (ka ++ ka) [Recv 9; Timeout; Recv 100; Recv 100] = [ONotify 1 1].
+Proof. split; vm_compute; reflexivity. Qed.
+
+(* ---- the timed reader (pending read kept) is the RFC framing, for every placement of timeouts
+        and every segmentation, as soon as the schedule offers enough reads *)
+
+Inductive hcl := HMarker | HLen | HOk (len ty : Z).
+Definition hclass (max : Z) (s : bytes) : hcl :=
+  if negb (all_ff (firstn 16 s)) then HMarker
+  else if (hdr_len s <? 19) || (max <? hdr_len s) || negb (rfc_len_ok (nth 18 s 0) (hdr_len s)) then HLen
+  else HOk (hdr_len s) (nth 18 s 0).
+
+Lemma hclass_app : forall max a b, (19 <= length a)%nat -> hclass max (a ++ b) = hclass max a.
+Proof.
+  intros max a b H. unfold hclass, hdr_len.
+  rewrite firstn_app. replace (16 - length a)%nat with 0%nat by lia. cbn [firstn]. rewrite app_nil_r.
+  rewrite !app_nth1 by lia. reflexivity.
+Qed.
+
+Lemma hclass_ok_len : forall max s len ty, hclass max s = HOk len ty -> 19 <= len.
+Proof.
+  intros max s len ty. unfold hclass.
+  destruct (negb (all_ff (firstn 16 s))); [discriminate|].
+  destruct ((hdr_len s <? 19) || (max <? hdr_len s) || negb (rfc_len_ok (nth 18 s 0) (hdr_len s))) eqn:B; [discriminate|].
+  intros E. injection E as E1 E2. subst.
+  apply orb_false_iff in B. destruct B as [B _]. apply orb_false_iff in B. destruct B as [B _].
+  now apply Z.ltb_ge in B.
+Qed.
+
+Lemma frame_hclass : forall fuel max s, (19 <= length s)%nat ->
+  frame (S fuel) max s =
+  match hclass max s with
+  | HMarker => [FNotify 1 1]
+  | HLen => [FNotify 1 2]
+  | HOk len ty =>
+      if (length s <? Z.to_nat len)%nat then []
+      else if negb (known_type ty) then [FNotify 1 3]
+      else FMsg ty (firstn (Z.to_nat len - 19) (skipn 19 s)) :: frame fuel max (skipn (Z.to_nat len) s)
+  end.
+Proof.
+  intros fuel max s H. cbn [frame]. unfold hclass. fold (hdr_len s).
+  destruct (Nat.ltb_spec (length s) 19); [lia|].
+  destruct (negb (all_ff (firstn 16 s))); [reflexivity|].
+  destruct ((hdr_len s <? 19) || (max <? hdr_len s) || negb (rfc_len_ok (nth 18 s 0) (hdr_len s))); reflexivity.
+Qed.
+
+Lemma need_finish_hclass : forall max acc, (19 <= length acc)%nat ->
+  match hclass max acc with
+  | HMarker => need_of max acc = None /\ conv (finish_msg max acc) = FNotify 1 1
+  | HLen => need_of max acc = None /\ conv (finish_msg max acc) = FNotify 1 2
+  | HOk len ty =>
+      need_of max acc = Some (Z.to_nat len - length acc)%nat /\
+      conv (finish_msg max acc) =
+        (if negb (known_type ty) then FNotify 1 3 else FMsg ty (if len =? 19 then [] else skipn 19 acc))
+  end.
+Proof.
+  intros max acc H. unfold need_of, finish_msg, hclass.
+  destruct (Nat.ltb_spec (length acc) 19); [lia|].
+  cbv zeta. rewrite firstn_firstn. change (Nat.min 16 19) with 16%nat.
+  rewrite list_eqb_marker by (rewrite firstn_length; lia).
+  unfold check_header_async.
+  destruct (all_ff (firstn 16 acc)); cbn [negb]; [|split; reflexivity].
+  change (Z.to_nat 18) with 18%nat. change (Z.to_nat 16) with 16%nat. change (Z.to_nat 17) with 17%nat.
+  rewrite !nth_firstn_lt by lia.
+  replace ((0 * 256 + nth 16 acc 0) * 256 + nth 17 acc 0) with (hdr_len acc) by (unfold hdr_len; lia).
+  rewrite length_ok_is_rfc. rewrite (Z.gtb_ltb (hdr_len acc) max).
+  destruct ((hdr_len acc <? 19) || (max <? hdr_len acc)) eqn:B; cbn [orb]; [split; reflexivity|].
+  destruct (rfc_len_ok (nth 18 acc 0) (hdr_len acc)); cbn [negb]; [|split; reflexivity].
+  apply orb_false_iff in B. destruct B as [B1 _]. apply Z.ltb_ge in B1.
+  destruct (hdr_len acc - 19 =? 0) eqn:Z0; cbn [negb].
+  - apply Z.eqb_eq in Z0. split.
+    + f_equal. lia.
+    + rewrite deliver_ok. replace (hdr_len acc =? 19) with true by (symmetry; apply Z.eqb_eq; lia). reflexivity.
+  - apply Z.eqb_neq in Z0. split; [reflexivity|].
+    rewrite deliver_ok. replace (hdr_len acc =? 19) with false by (symmetry; apply Z.eqb_neq; lia). reflexivity.
+Qed.
+
+Definition recvs (evs : list tev) : nat := length (filter is_recv evs).
+
+(* a message still being read produces nothing when the stream ends there *)
+Lemma incomplete_frame_nil : forall fuel max acc n,
+  need_of max acc = Some (S n) -> frame fuel max acc = [].
+Proof.
+  intros fuel max acc n N. destruct fuel as [|fuel]; [reflexivity|].
+  destruct (Nat.ltb_spec (length acc) 19) as [L|L].
+  - cbn [frame]. destruct (Nat.ltb_spec (length acc) 19); [reflexivity|lia].
+  - rewrite frame_hclass by exact L. pose proof (need_finish_hclass max acc L) as NF.
+    destruct (hclass max acc) as [| |len ty].
+    + destruct NF as [NF _]. congruence.
+    + destruct NF as [NF _]. congruence.
+    + destruct NF as [NF _]. rewrite N in NF. injection NF as NF.
+      destruct (Nat.ltb_spec (length acc) (Z.to_nat len)); [reflexivity|lia].
+Qed.
+
+Lemma need_of_short : forall max acc, (length acc < 19)%nat -> need_of max acc = Some (19 - length acc)%nat.
+Proof. intros max acc H. unfold need_of. destruct (Nat.ltb_spec (length acc) 19); [reflexivity|lia]. Qed.
+
+Lemma need_of_long_inv : forall max acc n, (19 <= length acc)%nat -> need_of max acc = Some n ->
+  exists len ty, hclass max acc = HOk len ty /\ n = (Z.to_nat len - length acc)%nat.
+Proof.
+  intros max acc n L N. pose proof (need_finish_hclass max acc L) as NF.
+  destruct (hclass max acc) as [| |len ty].
+  - destruct NF as [NF _]. congruence.
+  - destruct NF as [NF _]. congruence.
+  - destruct NF as [NF _]. exists len, ty. split; [reflexivity|congruence].
+Qed.
+
+Theorem run_timed_is_frame : forall max evs acc rest n fuel,
+  need_of max acc = Some (S n) ->
+  (length rest <= recvs evs)%nat ->
+  (length (acc ++ rest) < fuel)%nat ->
+  map conv (run_timed true max evs {| t_acc := acc; t_rest := rest |}) = frame fuel max (acc ++ rest).
+Proof.
+  intros max evs. induction evs as [|e evs IH]; intros acc rest n fuel N R F.
+  - unfold recvs in R. cbn in R. destruct rest; [|cbn in R; lia].
+    rewrite app_nil_r. cbn [run_timed map]. symmetry. eapply incomplete_frame_nil; eassumption.
+  - destruct e as [k|].
+    2:{ cbn [run_timed]. eapply IH; eauto. }
+    cbn [run_timed t_acc t_rest]. rewrite N.
+    destruct rest as [|x xs].
+    { rewrite app_nil_r. cbn [map]. symmetry. eapply incomplete_frame_nil; eassumption. }
+    set (rest := x :: xs) in *.
+    set (got := Nat.min (Nat.min (S k) (S n)) (length rest)).
+    assert (G1 : (1 <= got)%nat) by (unfold got, rest; cbn [length]; lia).
+    assert (G2 : (got <= S n)%nat) by (unfold got; lia).
+    assert (G3 : (got <= length rest)%nat) by (unfold got; lia).
+    set (acc' := acc ++ firstn got rest). set (rest' := skipn got rest).
+    assert (E : acc' ++ rest' = acc ++ rest).
+    { unfold acc', rest'. rewrite <- app_assoc. now rewrite firstn_skipn. }
+    assert (LA : length acc' = (length acc + got)%nat).
+    { unfold acc'. rewrite app_length, firstn_length. lia. }
+    assert (LR : length rest' = (length rest - got)%nat) by (unfold rest'; now rewrite skipn_length).
+    assert (R' : (length rest' <= recvs evs)%nat).
+    { unfold recvs in *. cbn [filter is_recv length] in R. lia. }
+    rewrite <- E.
+    assert (F' : (length (acc' ++ rest') < fuel)%nat) by now rewrite E.
+    (* the accumulated bytes never exceed the message *)
+    assert (BOUND : (length acc' < 19)%nat \/
+                    ((19 <= length acc')%nat /\
+                     forall len ty, hclass max acc' = HOk len ty -> (length acc' <= Z.to_nat len)%nat)).
+    { destruct (Nat.ltb_spec (length acc') 19) as [L|L]; [now left|right; split; [exact L|]].
+      intros len ty HC.
+      destruct (Nat.ltb_spec (length acc) 19) as [La|La].
+      - rewrite need_of_short in N by exact La.
+        assert (N2 : (19 - length acc)%nat = S n) by congruence.
+        pose proof (hclass_ok_len _ _ _ _ HC). lia.
+      - destruct (need_of_long_inv max acc (S n) La N) as [len0 [ty0 [HC0 N0]]].
+        assert (hclass max acc' = hclass max acc) as HE by (unfold acc'; now apply hclass_app).
+        rewrite HE, HC0 in HC. injection HC as H1 H2. subst. lia. }
+    destruct (need_of max acc') as [[|m]|] eqn:N'.
+    + (* the message is complete *)
+      destruct BOUND as [L|[L B]]; [rewrite need_of_short in N' by exact L; assert ((19 - length acc')%nat = 0%nat) by congruence; lia|].
+      destruct (need_of_long_inv max acc' 0%nat L N') as [len [ty [HC N0]]].
+      specialize (B len ty HC).
+      assert (LEN : length acc' = Z.to_nat len) by lia.
+      destruct fuel as [|fuel]; [lia|].
+      rewrite frame_hclass by (rewrite app_length; lia).
+      rewrite hclass_app by exact L. rewrite HC.
+      pose proof (need_finish_hclass max acc' L) as NF. rewrite HC in NF. destruct NF as [_ NF].
+      destruct (Nat.ltb_spec (length (acc' ++ rest')) (Z.to_nat len)) as [C|C]; [rewrite app_length in C; lia|].
+      rewrite is_notify_conv. rewrite NF.
+      destruct (negb (known_type ty)).
+      * cbn [map]. now rewrite NF.
+      * cbn [map]. rewrite NF. f_equal.
+        -- f_equal. rewrite skipn_app. rewrite firstn_app.
+           rewrite skipn_length.
+           replace (Z.to_nat len - 19 - (length acc' - 19))%nat with 0%nat by lia.
+           cbn [firstn]. rewrite app_nil_r.
+           rewrite firstn_all2 by (rewrite skipn_length; lia).
+           destruct (len =? 19) eqn:E19; [|reflexivity].
+           apply Z.eqb_eq in E19. symmetry. apply length_zero_iff_nil. rewrite skipn_length. lia.
+        -- rewrite <- LEN. rewrite skipn_app, skipn_all.
+           replace (length acc' - length acc')%nat with 0%nat by lia. cbn [skipn app].
+           change rest' with ([] ++ rest').
+           eapply (IH [] rest' 18%nat); [reflexivity|exact R'|cbn [app]; rewrite app_length in F'; lia].
+    + (* still incomplete *)
+      eapply IH; eauto.
+    + (* the header is refused *)
+      destruct BOUND as [L|[L _]]; [rewrite need_of_short in N' by exact L; discriminate|].
+      destruct fuel as [|fuel]; [lia|].
+      rewrite frame_hclass by (rewrite app_length; lia).
+      rewrite hclass_app by exact L.
+      pose proof (need_finish_hclass max acc' L) as NF.
+      destruct (hclass max acc') as [| |len ty].
+      * destruct NF as [_ NF]. cbn [map]. now rewrite NF.
+      * destruct NF as [_ NF]. cbn [map]. now rewrite NF.
+      * destruct NF as [NF _]. congruence.
+Qed.
+
+Theorem timed_reader_is_frames : forall max stream evs,
+  (length stream <= recvs evs)%nat ->
+  map conv (timed_reader true max stream evs) = frames max stream.
+Proof.
+  intros max stream evs H. unfold timed_reader, frames.
+  change stream with ([] ++ stream) at 2 3.
+  eapply (run_timed_is_frame max evs [] stream 18%nat); [reflexivity|exact H|cbn [app]; lia].
+Qed.
